@@ -38,11 +38,12 @@ func (c *HeartbeatManager) IsHeartbeatRunning() bool {
 	c.stopMux.Lock()
 	defer c.stopMux.Unlock()
 
-	if c.stopHeartbeatC != nil && !c.isHeartbeatClosed() {
-		return true
-	}
+	return c.isHeartbeatRunning()
+}
 
-	return false
+// the caller has to hold stopMux
+func (c *HeartbeatManager) isHeartbeatRunning() bool {
+	return c.stopHeartbeatC != nil && !c.isHeartbeatClosed()
 }
 
 func (c *HeartbeatManager) SetLocalFeature(entity api.EntityLocalInterface, feature api.FeatureLocalInterface) {
@@ -88,8 +89,12 @@ func (c *HeartbeatManager) StartHeartbeat() error {
 		return err
 	}
 
-	// stop an already running heartbeat
-	c.StopHeartbeat()
+	// stopping an already running heartbeat, creating the new stop channel and starting
+	// the new heartbeat must not interleave with another start or stop
+	c.stopMux.Lock()
+	defer c.stopMux.Unlock()
+
+	c.stopHeartbeat()
 
 	verifYield("StartHeartbeat.afterStop")
 
@@ -103,7 +108,15 @@ func (c *HeartbeatManager) StartHeartbeat() error {
 // Stop updating heartbeat data
 // Note: No active subscribers will get any further notifications!
 func (c *HeartbeatManager) StopHeartbeat() {
-	if c.IsHeartbeatRunning() {
+	c.stopMux.Lock()
+	defer c.stopMux.Unlock()
+
+	c.stopHeartbeat()
+}
+
+// the caller has to hold stopMux
+func (c *HeartbeatManager) stopHeartbeat() {
+	if c.isHeartbeatRunning() {
 		verifYield("StopHeartbeat.afterCheck")
 		close(c.stopHeartbeatC)
 	}
